@@ -35,6 +35,19 @@ theorem accept_sound (d : Bytes) (hv : d.Valid) (h : isBinaryASN1 d = true) :
       d = identifier cls constructed tag ++ lengthOctets content.length ++ content :=
   Lemmas.Asn1.accept_sound d hv h
 
+/-- the regenerated fact: the identifier walks the nested structure (`ParseRaw`) before it calls data ASN.1 -/
+theorem identifier_walks_tree : Gen.asn1IdentifierWalksTree = true := by decide
+
+/-- RECOGNISED ⇒ DUMPED: whatever the identifier calls ASN.1 has a generic dump — it is DER all the way down, never
+    "unknown ASN.1 data" (a SEQUENCE whose content is an indefinite-length element, or text that happens to start with
+    a plausible tag and its own remaining length, is not reported as ASN.1) -/
+theorem recognised_is_dumped (d : Bytes) (h : isASN1 d = true) : (dump d).isSome = true :=
+  Lemmas.Asn1.isASN1_dump identifier_walks_tree d h
+
+/-- … and every well-formed tree is still recognised -/
+theorem accept_complete_walk (t : Tlv) (h : Wf t) : isASN1 (enc t) = true :=
+  Lemmas.Asn1.isASN1_complete no_recurse_into_empty t h
+
 /-- hence trailing bytes, truncation, indefinite and non-minimal lengths are never reported as ASN.1 -/
 theorem reject_trailing (t : Tlv) (h : Wf t) (extra : Bytes) (he : extra ≠ []) :
     isBinaryASN1 (enc t ++ extra) = false := Lemmas.Asn1.reject_trailing t h extra he
